@@ -144,6 +144,59 @@ pub fn ks_event(out: &mut dyn std::io::Write, variant: &str, key: &[u8], nonce: 
         .emit(out);
 }
 
+/// `ks` event reached through a history: warm-up calls whose outputs are discarded, then seek(pos) and one apply.
+/// The keystream at a position must not depend on how the position was reached.
+///   warm = 1: apply 256*k bytes from 0 (wide path only), then seek back          warm = 2: seek to the next block boundary first
+///   warm = 3: apply up to pos + n (narrow tail), then seek back                   warm = 4: failed oversized request first (IETF only meaningful)
+#[allow(clippy::too_many_arguments)]
+pub fn ks_event_warm(out: &mut dyn std::io::Write, variant: &str, key: &[u8], nonce: &[u8], pos: u64, data: &[u8], warm: u32) {
+    let n = data.len();
+    let mut buf = vec![0xa5u8; n + 2 * GUARD];
+    buf[GUARD..GUARD + n].copy_from_slice(data);
+    let r = guarded(|| {
+        let mut c = make(variant, key, nonce);
+        match warm {
+            1 => {
+                let upto = ((pos as usize + n + 255) / 256) * 256;
+                let mut w = vec![0u8; upto.max(256)];
+                c.apply(&mut w).map_err(|_| "warm-err")?;
+            }
+            2 => {
+                c.seek("u64", false, ((pos / 64 + 1) * 64) as u128).map_err(|_| "warm-err")?;
+            }
+            3 => {
+                let mut w = vec![0u8; pos as usize + n];
+                c.apply(&mut w).map_err(|_| "warm-err")?;
+            }
+            _ => {
+                c.seek("u64", false, pos as u128 + 3).map_err(|_| "warm-err")?;
+                let mut w = vec![0u8; 1 << 12];
+                let _ = c.apply(&mut w);
+            }
+        }
+        c.seek("u64", false, pos as u128).map_err(|_| "seek-err")?;
+        c.apply(&mut buf[GUARD..GUARD + n]).map_err(|_| "apply-err")
+    });
+    let res = match &r {
+        Ok(Ok(())) => "ok".to_string(),
+        Ok(Err(e)) => e.to_string(),
+        Err(p) => format!("panic:{}", sanitize(p)),
+    };
+    let guard_ok = buf[..GUARD].iter().all(|&x| x == 0xa5) && buf[GUARD + n..].iter().all(|&x| x == 0xa5);
+    Ev::new(0, "ks")
+        .s("variant", variant)
+        .s("tag", &format!("warm{}", warm))
+        .bytes("key", key)
+        .bytes("nonce", nonce)
+        .limbs("pos", pos as u128, 5)
+        .i("n", n as i64)
+        .bytes("before", data)
+        .bytes("after", &buf[GUARD..GUARD + n])
+        .b("guard", guard_ok)
+        .s("res", &res)
+        .emit(out);
+}
+
 /// C01 driver: structured + random (key, nonce, position, length, data) samples for all 7 types.
 pub fn drive_c01(out: &mut dyn std::io::Write, seed: u64, thorough: bool) {
     let mut rng = Rng::new(seed);
@@ -212,6 +265,16 @@ pub fn drive_c01(out: &mut dyn std::io::Write, seed: u64, thorough: bool) {
                     };
                     ks_event(out, variant, &key, &nonce, p, &data, "rand");
                 }
+            }
+        }
+        // (ii') the same positions reached through a history (wide path, aligned seek, narrow tail, failed request before)
+        for warm in 1..=4u32 {
+            for &(p, l) in [(200u64, 90usize), (0, 64), (449, 5), (192, 64), (255, 2)].iter() {
+                let key = rng.bytes(32);
+                let nonce = rng.bytes(nl);
+                let p = if warm == 4 && *variant == "Ietf" { (1u64 << 38) - 64 + (p % 60) } else { p };
+                let l = if warm == 4 && *variant == "Ietf" { 1 + l % 3 } else { l };
+                ks_event_warm(out, variant, &key, &nonce, p, &rng.bytes(l), warm);
             }
         }
         // (iii) all-ones key and nonce (carries everywhere)
